@@ -49,6 +49,14 @@ class Lib:
         m = MODELS.get(id(fv))
         if m is not None and m[0] is fv:
             return m[1]
+        # bound builtin methods (e.g. c_char.from_buffer) are created anew on
+        # every attribute access: match them by owner and name
+        import types as _t
+        if isinstance(fv, _t.BuiltinMethodType) and getattr(fv, "__self__", None) is not None:
+            for fn, f in MODELS.values():
+                if isinstance(fn, _t.BuiltinMethodType) and fn.__name__ == fv.__name__ \
+                        and getattr(fn, "__self__", None) is fv.__self__:
+                    return f
         return None
 
     # ------------------------------------------------------------- enums
